@@ -355,15 +355,23 @@ package gldap
 // A-USER: an Option value handed to gldap is nil or was produced by one of the
 // package's With* functions; each of those closures is verified against this
 // contract below.
+//@ pure optInv(o interface{}) bool = typeIs(o, *controlOptions) ==> o.(*controlOptions).withErrorCode >= -1 && o.(*controlOptions).withErrorCode <= 127
 //@ functype gldap.Option
 //@   params f Option, o interface{}
+//@   requires iref(o) != 0 && optInv(o)
+//@   ensures  optInv(o)
 //@   panics false
-//@   modifies all(responseOptions), all(controlOptions), all(routeOptions), all(configOptions), all(messageOptions), all(generalOptions)
+//@   tags C16
+//@   modifies all(responseOptions), all(controlOptions), all(routeOptions), all(configOptions), all(messageOptions), all(generalOptions), all(testOptions)
 //@ func gldap.applyOpts
 //@   inline literal
+//@   requires iref(opts) != 0 && optInv(opts)
+//@   ensures  optInv(opts)
 //@   panics false
-//@   modifies all(responseOptions), all(controlOptions), all(routeOptions), all(configOptions), all(messageOptions), all(generalOptions)
+//@   modifies all(responseOptions), all(controlOptions), all(routeOptions), all(configOptions), all(messageOptions), all(generalOptions), all(testOptions)
 //@   tags C16
+//@ loop 1
+//@   invariant optInv(opts)
 
 // Message.GetID: every message kind built by the decoder embeds baseMessage.
 //@ pure msgID(m Message) int64 = cond(typeIs(m, *SearchMessage), m.(*SearchMessage).id, cond(typeIs(m, *SimpleBindMessage), m.(*SimpleBindMessage).id, cond(typeIs(m, *ExtendedOperationMessage), m.(*ExtendedOperationMessage).id,
@@ -405,3 +413,118 @@ package gldap
 //@   ensures  result != nil
 //@   panics false
 //@   tags C16
+
+// ---- sid.go / entry.go (C16) -----------------------------------------------------------------
+//@ func gldap.SIDBytes
+//@   panics false
+//@   tags C16
+//@ func gldap.SIDBytesToString
+//@   panics false
+//@   tags C16
+//@ func gldap.NewEntryAttribute
+//@   ensures  result != nil && fresh(result) && result.Name == name && result.Values == values && len(result.ByteValues) == len(values)
+//@   ensures  forall(j, 0, len(values), bytestr(result.ByteValues[j]) == values[j])
+//@   panics false
+//@   modifies nothing
+//@   tags C16 C04 C20
+//@ loop 1
+//@   invariant len(bytes) == rangeindex + 1
+//@   invariant forall(j, 0, len(bytes), bytestr(bytes[j]) == values[j])
+//@   modifies cell([]byte)@bytes, cell(uint8)@none
+//@ func (*gldap.Entry).GetAttributeValues
+//@   requires e != nil && forall(j, 0, len(e.Attributes), e.Attributes[j] != nil)
+//@   panics false
+//@   modifies nothing
+//@   tags C16 C19
+//@ pure attrPaired(e *EntryAttribute) bool = len(e.Values) == len(e.ByteValues) && forall(j, 0, len(e.Values), bytestr(e.ByteValues[j]) == e.Values[j])
+//@ func (*gldap.EntryAttribute).AddValue
+//@   requires e != nil && attrPaired(e)
+//@   ensures  attrPaired(e) && len(e.Values) == old(len(e.Values)) + len(value) && e.Name == old(e.Name)
+//@   panics false
+//@   modifies EntryAttribute.Values, EntryAttribute.ByteValues, cell(string), cell([]byte)
+//@   tags C16 C20
+//@ loop 1
+//@   invariant len(e.Values) == old(len(e.Values)) + rangeindex + 1 && attrPaired(e)
+//@   modifies EntryAttribute.Values, EntryAttribute.ByteValues, cell(string), cell([]byte), cell(uint8)@none
+//@ func gldap.NewEntry
+//@   ensures  result != nil && fresh(result) && result.DN == dn
+//@   panics false
+//@   tags C16
+//@ func (*gldap.Request).NewSearchResponseEntry
+//@   requires reqOK(r)
+//@   ensures  result != nil
+//@   panics false
+//@   tags C16
+
+// ---- control constructors, mux registration (C16 totality) --------------------------------
+//@ func gldap.NewControlString
+//@   panics false
+//@   tags C16
+//@ func gldap.NewControlManageDsaIT
+//@   panics false
+//@   tags C16
+//@ func gldap.NewControlMicrosoftNotification
+//@   panics false
+//@   tags C16
+//@ func gldap.NewControlMicrosoftServerLinkTTL
+//@   panics false
+//@   tags C16
+//@ func gldap.NewControlMicrosoftShowDeleted
+//@   panics false
+//@   tags C16
+//@ func gldap.NewControlPaging
+//@   panics false
+//@   tags C16
+//@ func gldap.NewControlBeheraPasswordPolicy
+//@   ensures err == nil ==> result0 != nil && result0.error <= 8 && result0.error >= -1
+//@   ensures err == nil ==> !(result0.grace >= 0 && result0.expire >= 0) && !(result0.grace >= 0 && result0.error >= 0) && !(result0.expire >= 0 && result0.error >= 0)
+//@   panics false
+//@   tags C14 C16
+//@ func gldap.NewMux
+//@   ensures err == nil && result0 != nil && len(result0.routes) == 0 && isNilIface(result0.defaultRoute) && isNilIface(result0.unbindRoute)
+//@   panics false
+//@   tags C16 C03
+//@ pure muxFree(m *Mux) bool = m != nil && !held(&m.mu)
+//@ func (*gldap.Mux).Bind
+//@   requires muxFree(m)
+//@   ensures  muxFree(m)
+//@   ensures  bindFn == nil ==> result != nil && m.routes == old(m.routes)
+//@   ensures  bindFn != nil ==> result == nil && len(m.routes) == old(len(m.routes)) + 1
+//@   panics false
+//@   tags C16 C03
+//@ func (*gldap.Mux).Unbind
+//@   requires muxFree(m)
+//@   ensures  muxFree(m) && m.routes == old(m.routes)
+//@   panics false
+//@   tags C16 C03
+//@ func (*gldap.Mux).Search
+//@   requires muxFree(m)
+//@   ensures  muxFree(m)
+//@   ensures  searchFn != nil ==> result == nil && len(m.routes) == old(len(m.routes)) + 1
+//@   panics false
+//@   tags C16 C03
+//@ func (*gldap.Mux).ExtendedOperation
+//@   requires muxFree(m)
+//@   ensures  muxFree(m)
+//@   panics false
+//@   tags C16 C03
+//@ func (*gldap.Mux).Modify
+//@   requires muxFree(m)
+//@   ensures  muxFree(m)
+//@   panics false
+//@   tags C16 C03
+//@ func (*gldap.Mux).Add
+//@   requires muxFree(m)
+//@   ensures  muxFree(m)
+//@   panics false
+//@   tags C16 C03
+//@ func (*gldap.Mux).Delete
+//@   requires muxFree(m)
+//@   ensures  muxFree(m)
+//@   panics false
+//@   tags C16 C03
+//@ func (*gldap.Mux).DefaultRoute
+//@   requires muxFree(m)
+//@   ensures  muxFree(m) && m.routes == old(m.routes)
+//@   panics false
+//@   tags C16 C03
